@@ -26,6 +26,9 @@ Distinct(s) == Cardinality(Rng(s)) = Len(s)
 Ascending(s) == \A i \in 1..(Len(s) - 1) : s[i] < s[i + 1]
 SortedSeq(S) == SetToSortSeq(S, <)
 Max0(T) == IF T = {} THEN 0 ELSE CHOOSE m \in T : \A y \in T : y <= m
+(* the same set, normalised inside TLC (Cardinality sorts it in place): membership tests in a set built by a
+   comprehension are linear until then, which makes \subseteq and \ quadratic on sheets with 10^5 cells *)
+Nz(S) == IF Cardinality(S) < 0 THEN {} ELSE S
 
 (* ======================================================================= *)
 (* Part 1: the workbook                                                    *)
@@ -52,7 +55,8 @@ Post_RenameSheet(wb, s, name) == [wb EXCEPT !.sheets[s].name = name]
 Post_SetActive(wb, i)         == [wb EXCEPT !.active = i]
 Post_SetCell(wb, s, cell) ==
   [wb EXCEPT !.sheets[s].cells = {x \in @ : ~SamePos(x, cell)} \cup {cell}, !.sheets[s].rowdims = @ \cup {cell.r}]
-Post_RemoveCell(wb, s, r, c) == [wb EXCEPT !.sheets[s].cells = {x \in @ : ~(x.r = r /\ x.c = c)}]
+Post_RemoveCell(wb, s, r, c) == [wb EXCEPT !.sheets[s].cells = {x \in @ : ~(x.r = r /\ x.c = c)},       \* the hyperlink lives on the cell
+                                          !.sheets[s].links = {x \in @ : ~(x.r = r /\ x.c = c)}]
 Post_Link(wb, s, link) ==
   [wb EXCEPT !.sheets[s].links = {x \in @ : ~SamePos(x, link)} \cup {link}, !.sheets[s].rowdims = @ \cup {link.r}]
 Post_Merge(wb, s, g)          == [wb EXCEPT !.sheets[s].merges = @ \cup {g}]
